@@ -197,6 +197,8 @@ def audit(case, backend, runs) -> dict:
     arg0 = {}      # call_hash -> body hash (argument 0 of vf.node-like calls)
     for a in session.query(Argument).filter(Argument.arg_position == 0).all():
         arg0[a.call_hash] = a.value_hash
+    for a in session.query(Argument).filter(Argument.arg_key == "ast").all():
+        arg0[a.call_hash] = a.value_hash     # calls through a keyword-bound partial (vf.kelem)
     # (1) recorded argument values == values the function received
     for r in runs:
         for sub in r.ctl.submissions:
